@@ -167,6 +167,17 @@ func VerifFaults() {
 		}
 	}
 
+	// ---- whatever accompanies a refusal is nothing or the stored checkpoint, never a fresh cosignature ----
+	if !accepted && out != nil {
+		rt.Assert(hadPrev && rt.Eq(out, prevRaw), "C03/refusal-bytes-are-nil-or-previous")
+		for _, e := range evs {
+			if e.K == "Sign" {
+				rt.Assert(!rt.Eq(out, e.B[1]), "C03/no-cosignature-released-on-storage-failure")
+			}
+		}
+	}
+	rt.Cover(!accepted && nSign == 1, "flt/refused-after-signing")
+
 	// ---- a failed read of the previous checkpoint is never "no previous checkpoint" ----
 	readFailed := queryFault
 	if fs != nil {
